@@ -572,6 +572,32 @@ def sm_accum(ctx):
     iv = {norm_text(st.targets[0]).replace('self.', ''): norm_text(st.value)
           for st in init.node.body if isinstance(st, ast.Assign) and
           norm_text(st.targets[0]).startswith('self.')}
+    if any(isinstance(st, ast.Expr) and isinstance(st.value, ast.Call) and
+           norm_text(st.value.func) == 'self.reset_estimates' and not st.value.args
+           for st in init.node.body):
+        # the constructor initialises the estimates by calling reset_estimates itself
+        for st in rs.node.body:
+            if isinstance(st, ast.Assign):
+                iv.setdefault(norm_text(st.targets[0]).replace('self.', ''), norm_text(st.value))
+    # the estimates are float arrays whatever the user passed: an allocation `*_like(self.x)`
+    # without dtype= takes the dtype of a constructor argument (integer-typed sd -> the element
+    # updates `bias[k] += xi` drop the fractional part of every correction)
+    for m_ in (init, rs):
+        for st in ast.walk(m_.node):
+            if isinstance(st, ast.Assign) and isinstance(st.value, ast.Call) and \
+                    norm_text(st.targets[0]).replace('self.', '') in mutated and \
+                    (em.module.resolve(st.value.func) or '') in (
+                        'numpy.zeros_like', 'numpy.empty_like', 'numpy.ones_like',
+                        'numpy.full_like') and \
+                    not any(k.arg == 'dtype' for k in st.value.keywords):
+                ctx.ob('SM-ATTRS', False, None, 'estimate arrays are allocated as floats', f=m_,
+                       node=st, key='dtype-' + norm_text(st.targets[0]),
+                       why='`%s` allocates an estimate with the dtype of `%s`, a value the user '
+                           'supplied: for an integer-typed argument the element-wise updates '
+                           'truncate every correction (several updates no longer equal one update '
+                           'with their sum; integer and float spellings of one model differ)'
+                           % (norm_text(st)[:70], norm_text(st.value.args[0])[:30]
+                              if st.value.args else '?'))
     for st in rs.node.body:
         if isinstance(st, ast.Assign):
             a = norm_text(st.targets[0]).replace('self.', '')
